@@ -88,13 +88,8 @@ func runC13(p *core.Program, r *core.Report) {
 		switch x := in.(type) {
 		case *ssa.Panic:
 			for _, rw := range roles.RawWord {
-				if rw == fn {
-					// must be on the err != nil edge of the CSPRNG read
-					for _, g := range core.Guards(x.Block()) {
-						if rel, ok := core.AsRel(g); ok && rel.Op == token.NEQ && (core.IsNilConst(rel.Y) || core.IsNilConst(rel.X)) {
-							return "CSPRNG-failure panic (intended: generation fails closed, C09)", true
-						}
-					}
+				if rw == fn && panicDependsOnRead(x) {
+					return "CSPRNG-failure panic (intended: generation fails closed, C09)", true
 				}
 			}
 			for _, bd := range roles.BoundedDraw {
@@ -129,6 +124,48 @@ func runC13(p *core.Program, r *core.Report) {
 	} else {
 		r.Pass("R13.6", "-", "only string elements are added to character sets", "", charSetWhy)
 	}
+}
+
+// panicDependsOnRead: every edge into the panic's block is taken on a condition
+// over the results (n, err) of the CSPRNG read.
+func panicDependsOnRead(pn *ssa.Panic) bool {
+	b := pn.Block()
+	if len(b.Preds) == 0 {
+		return false
+	}
+	var mentions func(v ssa.Value, d int) bool
+	mentions = func(v ssa.Value, d int) bool {
+		if d > 5 || v == nil {
+			return false
+		}
+		switch x := v.(type) {
+		case *ssa.Extract:
+			if c, ok := x.Tuple.(*ssa.Call); ok {
+				switch core.CallName(c) {
+				case "crypto/rand.Read", "io.ReadFull", "io.ReadAtLeast":
+					return true
+				}
+			}
+		case *ssa.BinOp:
+			return mentions(x.X, d+1) || mentions(x.Y, d+1)
+		case *ssa.UnOp:
+			return mentions(x.X, d+1)
+		case *ssa.Phi:
+			for _, e := range x.Edges {
+				if mentions(e, d+1) {
+					return true
+				}
+			}
+		}
+		return false
+	}
+	for _, pred := range b.Preds {
+		iff, ok := pred.Instrs[len(pred.Instrs)-1].(*ssa.If)
+		if !ok || !mentions(iff.Cond, 0) {
+			return false
+		}
+	}
+	return true
 }
 
 // checkGuardsDominateDraws applies R13.2 and R13.5.
